@@ -25,7 +25,7 @@ if git apply --check "$src/patch.diff" 2>/dev/null; then
   # run only the demo's tests
   tests=$(grep -o '^func Test[A-Za-z0-9_]*' "$src/demo_test.go" | sed 's/func //' | paste -sd'|')
   if (cd "$ddir" && go test $RACE -vet=off -count=1 -run "^($tests)\$" . >/tmp/confirm_$name.mut.log 2>&1); then mut=PASS_unexpected; else mut=fails; fi
-  if (cd "$ddir" && git stash -q && cp "$src/demo_test.go" zz_demo_test.go && go test $RACE -vet=off -count=1 -run "^($tests)\$" . >/tmp/confirm_$name.clean2.log 2>&1); then clean2=pass; else clean2=FAIL; fi
+  if (cd "$ddir" && git checkout -q -- . && cp "$src/demo_test.go" zz_demo_test.go && go test $RACE -vet=off -count=1 -run "^($tests)\$" . >/tmp/confirm_$name.clean2.log 2>&1); then clean2=pass; else clean2=FAIL; fi
   res="applies=yes build=$build suite_with_patch=$suite demo_with_patch=$mut demo_clean=$clean2"
 fi
 echo "$name: $res"
